@@ -22,7 +22,7 @@ def vu(x, unit):
 
 def gen_case(rng):
     shape = rng.choice(["generic", "generic", "generic", "single", "only_hot", "only_cold", "isothermal", "zero_dt", "dup_names", "unused_utils", "vu"])
-    labels = rng.choice([["A"], ["A", "B"], ["A/X", "A/Y", "B"]])
+    labels = rng.choice([["A"], ["A", "B"], ["A/X", "A/Y", "B"], ["A/X/U", "A/X/V", "A/Y", "B"], ["/", "A"], ["A/", "/A"]])
     pr = P.gen_problem(rng, labels=labels, with_tree=(rng.random() < 0.2), util_kind=rng.choice(["none", "ladder", "outside", "mixed"]))
     ss = pr["streams"]
     if shape == "single":
